@@ -1695,10 +1695,23 @@ L:
 }
 
 func (c *compiler) optimizeCodeOps() {
+	targets := make(map[int]struct{})
+	for _, code := range c.codes {
+		switch code.op {
+		case opfork, opforktrybegin, opforkalt, opjump, opjumpifnot,
+			opcall, opcallrec, oppushpc:
+			if pc, ok := code.v.(int); ok {
+				targets[pc] = struct{}{}
+			}
+		}
+	}
 	for i, next := len(c.codes)-1, (*code)(nil); i >= 0; i-- {
 		code := c.codes[i]
 		switch code.op {
 		case oppush, opdup, opload:
+			if _, ok := targets[i+1]; ok {
+				break
+			}
 			switch next.op {
 			case oppop:
 				code.op = opnop
